@@ -189,12 +189,12 @@ package queueing
 // record j is exactly as it was on entry / has taken its step (dwell counter down by one, or at most one stage up)
 //@ pred recSame(p, j) = p.stages[j].Stage == old(p.stages)[j].Stage && p.stages[j].CycleLeft == old(p.stages)[j].CycleLeft
 //@ pred recDone(p, j) = (old(p.stages)[j].CycleLeft > 0 ==> p.stages[j].Stage == old(p.stages)[j].Stage && p.stages[j].CycleLeft == old(p.stages)[j].CycleLeft - 1) && (old(p.stages)[j].CycleLeft == 0 ==> p.stages[j].CycleLeft == 0 && (p.stages[j].Stage == old(p.stages)[j].Stage || p.stages[j].Stage == old(p.stages)[j].Stage + 1))
+// a record waiting at the last stage: it stays there; dwell cycles left (single-stage pipelines only, under dwellOK) count down by one
+//@ pred recLast(p, j) = p.stages[j].Stage == old(p.stages)[j].Stage && (old(p.stages)[j].CycleLeft > 0 ==> p.stages[j].CycleLeft == old(p.stages)[j].CycleLeft - 1) && (old(p.stages)[j].CycleLeft == 0 ==> p.stages[j].CycleLeft == 0)
 //@ pred recKeep(p) = forall j in 0..len(p.stages) :: p.stages[j].Lane == old(p.stages)[j].Lane && p.stages[j].Item == old(p.stages)[j].Item
 //@ pred advFrame(p) = len(p.stages) == old(len(p.stages)) && ref(p.stages) == old(ref(p.stages)) && off(p.stages) == old(off(p.stages))
 //@ pred stagesIn(p, lo, hi) = forall j in 0..len(p.stages) :: lo <= p.stages[j].Stage && p.stages[j].Stage <= hi
 //@ pred advRange(p, lo, hi) = forall j in 0..len(p.stages) :: lo <= old(p.stages)[j].Stage && (old(p.stages)[j].Stage <= hi || old(p.stages)[j].Stage == p.numStages - 1)
-// hypothesis of the progress clause: dwell cycles only at stage 0, and nothing is waiting at the last stage (the sink took it)
-//@ pred advHyp(p) = old(dwellOK(p)) && (forall j in 0..old(len(p.stages)) :: old(p.stages)[j].Stage < p.numStages - 1)
 
 //@ fn (*Pipeline[T]).advanceItems
 //@   property C15
@@ -204,41 +204,40 @@ package queueing
 //@   label C15.adv.keep
 //@   ensures recKeep(p)
 //@   label C15.adv.last
-//@   ensures forall j in 0..len(p.stages) :: old(p.stages)[j].Stage == p.numStages - 1 ==> recSame(p, j)
+//@   ensures forall j in 0..len(p.stages) :: old(p.stages)[j].Stage == p.numStages - 1 ==> recLast(p, j)
 //@   label C15.adv.step
 //@   ensures forall j in 0..len(p.stages) :: old(p.stages)[j].Stage < p.numStages - 1 ==> recDone(p, j)
 //@   label C15.adv.wf
 //@   ensures pipeWF(p)
 //@   label C15.adv.dwell
 //@   ensures old(dwellOK(p)) ==> dwellOK(p)
-//@   label C15.adv.progress
-//@   ensures advHyp(p) ==> (forall j in 0..len(p.stages) :: old(p.stages)[j].CycleLeft == 0 ==> p.stages[j].Stage == old(p.stages)[j].Stage + 1)
 //@   assigns elems(p.stages)
-//@   loop 0: ghost goff = buildOccupancy_off
-//@   loop 0: backedge goff = goff
-//@   loop 0: invariant minStage - 1 <= stage && stage <= maxStage && maxStage <= lastStage - 1 && lastStage == p.numStages - 1 && occBase == minStage && 0 <= minStage && n == len(p.stages)
-//@   loop 0: invariant advFrame(p) && fresh(occ)
-//@   loop 0: invariant goffDef(goff, minStage, p.width, minStage - 1, maxStage + 4)
-//@   loop 0: invariant goffMono(goff, p.width, minStage, maxStage + 4)
-//@   loop 0: invariant goff[minStage] == 0 && len(occ) == goff[maxStage + 3] && goff[stage + 1] == (stage + 1 - occBase) * p.width && 0 <= goff[stage + 1] && goff[stage + 1] + p.width <= len(occ)
-//@   loop 0: invariant recsOK(p) && stagesIn(p, minStage, maxStage + 1) && advRange(p, minStage, maxStage)
-//@   loop 0: invariant distinctOK(p)
-//@   loop 0: invariant occSound(p, occ, goff)
+//@   loop 0: invariant 0 <= i && i <= n && n == len(p.stages) && lastStage == p.numStages - 1 && advFrame(p)
+//@   loop 0: invariant forall j in 0..len(p.stages) :: (old(p.stages)[j].Stage == lastStage && j < i ==> recLast(p, j)) && (!(old(p.stages)[j].Stage == lastStage && j < i) ==> recSame(p, j))
 //@   loop 0: invariant recKeep(p)
-//@   loop 0: invariant forall j in 0..len(p.stages) :: old(p.stages)[j].Stage <= stage || old(p.stages)[j].Stage > maxStage ==> recSame(p, j)
-//@   loop 0: invariant forall j in 0..len(p.stages) :: stage < old(p.stages)[j].Stage && old(p.stages)[j].Stage <= maxStage ==> recDone(p, j)
-//@   loop 0: invariant advHyp(p) ==> (forall j in 0..len(p.stages) :: stage < old(p.stages)[j].Stage && old(p.stages)[j].CycleLeft == 0 ==> p.stages[j].Stage == old(p.stages)[j].Stage + 1)
-//@   loop 1: invariant minStage <= stage && stage <= maxStage && maxStage <= lastStage - 1 && lastStage == p.numStages - 1 && occBase == minStage && 0 <= minStage && n == len(p.stages) && n > 0 && 0 <= i && i <= n
+//@   loop 1: ghost goff = buildOccupancy_off
+//@   loop 1: backedge goff = goff
+//@   loop 1: invariant minStage - 1 <= stage && stage <= maxStage && maxStage <= lastStage - 1 && lastStage == p.numStages - 1 && occBase == minStage && 0 <= minStage && n == len(p.stages)
 //@   loop 1: invariant advFrame(p) && fresh(occ)
-//@   loop 1: invariant goff[stage + 1] == (stage + 1 - occBase) * p.width && goff[stage] == (stage - occBase) * p.width && 0 <= goff[stage] && goff[stage + 1] == goff[stage] + p.width && goff[stage + 1] + p.width <= len(occ)
-//@   loop 1: invariant recsOK(p) && stagesIn(p, minStage, maxStage + 1)
+//@   loop 1: invariant goffDef(goff, minStage, p.width, minStage - 1, maxStage + 4)
+//@   loop 1: invariant goffMono(goff, p.width, minStage, maxStage + 4)
+//@   loop 1: invariant goff[minStage] == 0 && len(occ) == goff[maxStage + 3] && goff[stage + 1] == (stage + 1 - occBase) * p.width && 0 <= goff[stage + 1] && goff[stage + 1] + p.width <= len(occ)
+//@   loop 1: invariant recsOK(p) && stagesIn(p, minStage, maxStage + 1) && advRange(p, minStage, maxStage)
 //@   loop 1: invariant distinctOK(p)
-//@   loop 1: invariant rowSep(p, goff, stage)
 //@   loop 1: invariant occSound(p, occ, goff)
 //@   loop 1: invariant recKeep(p)
-//@   loop 1: invariant forall j in 0..len(p.stages) :: old(p.stages)[j].Stage < stage || (old(p.stages)[j].Stage == stage && j >= i) || old(p.stages)[j].Stage > maxStage ==> recSame(p, j)
-//@   loop 1: invariant forall j in 0..len(p.stages) :: (stage < old(p.stages)[j].Stage && old(p.stages)[j].Stage <= maxStage) || (old(p.stages)[j].Stage == stage && j < i) ==> recDone(p, j)
-//@   loop 1: invariant advHyp(p) ==> (forall j in 0..len(p.stages) :: (stage < old(p.stages)[j].Stage || (old(p.stages)[j].Stage == stage && j < i)) && old(p.stages)[j].CycleLeft == 0 ==> p.stages[j].Stage == old(p.stages)[j].Stage + 1)
+//@   loop 1: invariant forall j in 0..len(p.stages) :: (old(p.stages)[j].Stage <= stage ==> recSame(p, j)) && (old(p.stages)[j].Stage > maxStage ==> recLast(p, j))
+//@   loop 1: invariant forall j in 0..len(p.stages) :: stage < old(p.stages)[j].Stage && old(p.stages)[j].Stage <= maxStage ==> recDone(p, j)
+//@   loop 2: invariant minStage <= stage && stage <= maxStage && maxStage <= lastStage - 1 && lastStage == p.numStages - 1 && occBase == minStage && 0 <= minStage && n == len(p.stages) && n > 0 && 0 <= i && i <= n
+//@   loop 2: invariant advFrame(p) && fresh(occ)
+//@   loop 2: invariant goff[stage + 1] == (stage + 1 - occBase) * p.width && goff[stage] == (stage - occBase) * p.width && 0 <= goff[stage] && goff[stage + 1] == goff[stage] + p.width && goff[stage + 1] + p.width <= len(occ)
+//@   loop 2: invariant recsOK(p) && stagesIn(p, minStage, maxStage + 1)
+//@   loop 2: invariant distinctOK(p)
+//@   loop 2: invariant rowSep(p, goff, stage)
+//@   loop 2: invariant occSound(p, occ, goff)
+//@   loop 2: invariant recKeep(p)
+//@   loop 2: invariant forall j in 0..len(p.stages) :: (old(p.stages)[j].Stage < stage || (old(p.stages)[j].Stage == stage && j >= i) ==> recSame(p, j)) && (old(p.stages)[j].Stage > maxStage ==> recLast(p, j))
+//@   loop 2: invariant forall j in 0..len(p.stages) :: (stage < old(p.stages)[j].Stage && old(p.stages)[j].Stage <= maxStage) || (old(p.stages)[j].Stage == stage && j < i) ==> recDone(p, j)
 
 // ---- the sink (interface Sink[T]: arbitrary user code; TRUSTED rely) ----
 // c15Room: hypothesis of the progress clause: the sink answers CanPush() == true whenever asked (never assigned).
@@ -268,6 +267,11 @@ package queueing
 // record k now is record j on entry after at most one step: same lane and item; untouched, or dwell counter down by one,
 // or (no dwell left) one stage up
 //@ pred recStepped(p, k, j) = p.stages[k].Lane == old(p.stages)[j].Lane && p.stages[k].Item == old(p.stages)[j].Item && ((p.stages[k].Stage == old(p.stages)[j].Stage && p.stages[k].CycleLeft == old(p.stages)[j].CycleLeft) || (old(p.stages)[j].CycleLeft > 0 && p.stages[k].Stage == old(p.stages)[j].Stage && p.stages[k].CycleLeft == old(p.stages)[j].CycleLeft - 1) || (old(p.stages)[j].CycleLeft == 0 && p.stages[k].CycleLeft == 0 && p.stages[k].Stage == old(p.stages)[j].Stage + 1))
+// NOT DECIDED (dropped from the contract, see the report): for pipelines with two or more stages, "a record without dwell
+// cycles below the last stage advances whenever the sink has room" (tickProgress for numStages >= 2). It needs the
+// completeness half of the occupancy table inside advanceItems' loops, which no solver handles (matching loop).
+// Decided instead: ready records are emitted (progress.ready), dwelling records count down by exactly one whatever the
+// stage count (progress.dwell), and the full clause for single-stage pipelines (progress.single).
 //@ pred tickProgress(p, em, to) = forall j in 0..old(len(p.stages)) :: (remOld(p, j) == 1 ==> em[j]) && (!em[j] ==> remNew(p, to[j]) == remOld(p, j) - 1)
 
 //@ fn (*Pipeline[T]).Tick
@@ -296,8 +300,10 @@ package queueing
 //@   ensures pipeWF(p)
 //@   label C15.tick.dwell
 //@   ensures old(dwellOK(p)) ==> dwellOK(p)
-//@   label C15.tick.progress.multi
-//@   ensures c15Room && old(dwellOK(p)) && p.numStages >= 2 ==> tickProgress(p, em, to)
+//@   label C15.tick.progress.ready
+//@   ensures c15Room ==> (forall j in 0..old(len(p.stages)) :: !em[j] ==> from[to[j]] == j && recStepped(p, to[j], j) && remOld(p, j) != 1)
+//@   label C15.tick.progress.dwell
+//@   ensures forall j in 0..old(len(p.stages)) :: !em[j] && old(p.stages)[j].CycleLeft > 0 ==> remNew(p, to[j]) == remOld(p, j) - 1
 //@   label C15.tick.progress.single
 //@   ensures c15Room && old(dwellOK(p)) && p.numStages == 1 ==> tickProgress(p, em, to)
 //@   assigns p.stages, elems(p.stages), c15PushN, c15PushLog, c15CanPush
